@@ -228,6 +228,11 @@ pub(crate) fn pow(lhs: &Value, rhs: &Value) -> TeraResult<Value> {
 
             let val = match (left, right) {
                 (Number::Integer(a), Number::Integer(b)) => {
+                    // Past u32 only these bases still have a result that fits
+                    if b > u32::MAX as i128 && matches!(a, -1..=1) {
+                        let val = if a == -1 && b % 2 == 0 { 1 } else { a };
+                        return Ok(Value::from(val));
+                    }
                     let exp = u32::try_from(b).map_err(|_| {
                         Error::message(format!(
                             "Exponent {b} is out of range for integer ** (must fit in u32)"
